@@ -61,6 +61,9 @@ func runC16(a *A) {
 		for _, st := range storesToField(pj, jtF) {
 			for _, l := range phiLeaves(st.Val) {
 				if k, ok := l.(*ssa.Const); ok && k.Value != nil && k.Value.Kind() == constant.String {
+					if constant.StringVal(k.Value) == "" {
+						continue // the zero value of a variable that holds the kind until it is known: not a join kind
+					}
 					written[constant.StringVal(k.Value)] = true
 				} else {
 					written["<dynamic:"+TermOf(l, nil).String()+">"] = true
@@ -212,6 +215,35 @@ func runC16(a *A) {
 					if l.X == nil || !isPairs(l.X) {
 						continue
 					}
+					// `keys = append(keys, p.<field>)` once in every iteration is positional as well
+					var aps []*ssa.Call
+					for b := range l.Blocks {
+						for _, in := range b.Instrs {
+							if c, isC := in.(*ssa.Call); isC {
+								if _, isAp := isBuiltinCall(c, "append"); isAp {
+									aps = append(aps, c)
+								}
+							}
+						}
+					}
+					for _, ap := range aps {
+						cc, _ := isBuiltinCall(ap, "append")
+						fieldOK := false
+						for _, e := range appendedElems(cc) {
+							if strings.Contains(TermOf(e, nil).String(), "[]."+inst.field) {
+								fieldOK = true
+							}
+						}
+						everyIter := true
+						for _, p := range l.Header.Preds {
+							if l.Blocks[p] && !(ap.Block() == p || ap.Block().Dominates(p)) {
+								everyIter = false
+							}
+						}
+						if fieldOK && everyIter {
+							ok = true
+						}
+					}
 					// a store key[i] = f(p.<field>) with the loop's index
 					for b := range l.Blocks {
 						for _, in := range b.Instrs {
@@ -301,8 +333,21 @@ func (a *A) ruleAliasDefaultBeforeUse() {
 			if use {
 				n++
 				if !(merge.Dominates(c.Block()) || merge == c.Block()) {
-					okAll = false
-					badPos = c.Pos()
+					// path form: is the use reachable without the alias having been settled - i.e. without
+					// passing the `Alias == ""` test that guards the default (either arm settles it)? Paths
+					// that fail with an error before the test return before the use.
+					var settle ssa.Instruction
+					for _, g := range guardsOf(def.Block()) {
+						if bo, ok := g.Cond.(*ssa.BinOp); ok && (bo.Op == token.EQL || bo.Op == token.NEQ) {
+							if t := TermOf(bo.X, nil); t.Kind == "field" && t.Field == aliasF {
+								settle = g.If
+							}
+						}
+					}
+					if settle == nil || explorePaths(fn, c, func(ssa.Value) Tri { return U }, func(in ssa.Instruction) bool { return in == settle }, nil) {
+						okAll = false
+						badPos = c.Pos()
+					}
 				}
 			}
 		}
